@@ -182,7 +182,7 @@ func paramsCmd(g *G) string {
 // failure at sampled instants; every admissible image must reopen to acceptable contents.
 func genPowerLoss(prop string) func(r *rng, tier string, res *Result) {
 	return func(r *rng, tier string, res *Result) {
-		n := scale(tier, 40, 600)
+		n := scale(tier, 40, 240)
 		stats := plStats{}
 		var plCases []*Case
 		var plImpls [][][]string
@@ -190,7 +190,7 @@ func genPowerLoss(prop string) func(r *rng, tier string, res *Result) {
 			g := newG(r.fork(), fmt.Sprintf("%s/%d", prop, i))
 			g.dumpEvery = 0
 			syncMode := i%3 == 2
-			g.params([]int{600, 700, 1100, 2048}[g.r.intn(4)], 512, []float32{0.0001, 0.1, 0.4}[g.r.intn(3)], syncMode)
+			g.params([]int{600, 700, 1100, 2048}[g.r.intn(4)], []int{512, 512, 560, 650}[g.r.intn(4)], []float32{0.0001, 0.1, 0.4}[g.r.intn(3)], syncMode)
 			g.open()
 			g.keys = g.randomKeys(8)
 			if i%4 == 1 {
@@ -244,6 +244,16 @@ func genPowerLoss(prop string) func(r *rng, tier string, res *Result) {
 					} else {
 						g.sync()
 					}
+				}
+				if i%5 == 3 {
+					// an emptied database whose compaction removes every segment: the next Open has to
+					// create a segment file, and the power may fail before its header is flushed
+					for len(g.ref) > 0 {
+						g.del(g.pickLive())
+					}
+					g.compact()
+					g.compact()
+					g.c.tag("emptied_and_compacted_before_close")
 				}
 				if i%3 == 1 {
 					// a session that changes the index through compaction only
@@ -331,7 +341,7 @@ func genPowerLoss(prop string) func(r *rng, tier string, res *Result) {
 					for k := pre + 1; k <= post; k++ {
 						if k == post {
 							instants = append(instants, inst{k, clone()})
-						} else if g.r.chance(scale(tier, 25, 100)) {
+						} else if g.r.chance(scale(tier, 25, 50)) {
 							instants = append(instants, inst{k, inflight})
 						}
 					}
